@@ -246,8 +246,16 @@ func (w *gcsWorker) stop() {
 		return
 	}
 	w.in.Close()
+	// a healthy worker leaves when its input ends; anything else is killed
+	done := make(chan struct{})
+	go func() { _, _ = w.cmd.Process.Wait(); close(done) }()
+	select {
+	case <-done:
+		return
+	case <-time.After(300 * time.Millisecond):
+	}
 	_ = w.cmd.Process.Kill()
-	_, _ = w.cmd.Process.Wait()
+	<-done
 }
 
 // ask sends one request; returns the response lines and "" / "crash" / "hang".
